@@ -366,8 +366,8 @@ Example C01_recorded_loop_trace_is_accepted :
 Proof. exact ex_trace_accepted. Qed.
 
 Example C01_recorded_loop_trace_with_wakeup_before_push_is_rejected :
-  accept_all m_init (swap_push_wake ex_trace) = None.
-Proof. exact ex_trace_wake_before_push_rejected. Qed.
+  swap_push_wake ex_trace <> ex_trace /\ accept_all m_init (swap_push_wake ex_trace) = None.
+Proof. exact (conj ex_trace_swap_differs ex_trace_wake_before_push_rejected). Qed.
 
 (* ---------------------------------------------------------------- non-vacuity: concrete runs (Rt/SchedLoopRuns.v) *)
 (* hypotheses of the no-lost-wake-up theorem: first epoll_wait (no timeout), global queue [1], the pusher at its wakeup call *)
